@@ -26,7 +26,7 @@ RULE = (
 ASSUMPTIONS = ["both classes non-empty", "NumPy global RandomState seeded per case", "the C13 reference model for the interval formula"]
 SAMPLERS = [("replacement", None), ("replacement", "by_label"), ("single_pass", None), ("single_pass", "by_label"), ("dynamic", None), ("dynamic", "by_label"),
             ("proportion", None), ("custom", None), ("identity", None)]
-METRICS = ["fnr", "eer", "thr", "auc", "cm_int", "vec_callable", "scalar_callable", "tpr_alias", "partly_nan", "partly_nan"]
+METRICS = ["fnr", "eer", "thr", "auc", "cm_int", "vec_callable", "scalar_callable", "tpr_alias", "partly_nan", "partly_nan", "rng_callable"]
 
 
 def digest_cases(seed, n):
@@ -175,6 +175,10 @@ def execute(ctx, case):
         def metric(x):
             return float(len(x.pos)) / max(len(x.neg), 1)
         kw, fn = {}, lambda x: np.asarray(float(len(x.pos)) / max(len(x.neg), 1))
+    elif mname == "rng_callable":  # a metric that consumes the global RNG (like a nested bootstrap): draws and evaluations interleave
+        def metric(x, threshold):
+            return x.fnr(threshold) + 0.0 * np.random.random()
+        kw, fn = {"threshold": th}, lambda x: metric(x, th)
     elif mname == "partly_nan":  # undefined on some resamples (like a group-wise rate of a small group): NaN replicates reach the CI formula
         q = float(np.quantile(np.asarray(pos, dtype=float), 0.3))
 
@@ -188,12 +192,23 @@ def execute(ctx, case):
     made = []
     received = []
 
+    reuse = bool(case["_seed"] % 2 == 0 and not case["grouped"])  # the sampler hands out one re-used object whose arrays it replaces per call
+    buffer = []
+    rows_at_production = []
+
     def custom(src):
         received.append(src)
         k = len(made)
         r = np.random.default_rng(1000 + k)
         if hasattr(src, "pos_groups"):
             smp = src
+        elif reuse:
+            if not buffer:
+                buffer.append(Scores(src.pos, src.neg, nb_easy_pos=src.nb_easy_pos, nb_easy_neg=src.nb_easy_neg, score_class=src.score_class, equal_class=src.equal_class))
+            smp = buffer[0]
+            smp.pos, smp.neg = np.sort(r.choice(src.pos, len(src.pos))), np.sort(r.choice(src.neg, len(src.neg)))
+            with monitors.oracle_scope_ctx():
+                rows_at_production.append(np.array(fn(smp), copy=True))  # what the j-th sample is worth while it is the j-th sample
         else:
             smp = Scores(r.choice(src.pos, len(src.pos)), r.choice(src.neg, len(src.neg)), nb_easy_pos=src.nb_easy_pos, nb_easy_neg=src.nb_easy_neg,
                          score_class=src.score_class, equal_class=src.equal_class)
@@ -224,6 +239,8 @@ def execute(ctx, case):
     if len(samples) == S_ and res.shape == (S_,) + point.shape:
         with monitors.oracle_scope_ctx():
             rows = [np.asarray(fn(b)) for b in samples]
+        if kind == "custom" and reuse and len(rows_at_production) >= S_:
+            rows = rows_at_production[:S_]
         bad = next((j for j in range(S_) if not np.array_equal(res[j], rows[j], equal_nan=True)), None)
         C(bad is None, "row j of bootstrap_metric is not the metric evaluated on the j-th sample drawn", "boot-row", row=bad)
     if kind == "custom":
@@ -236,6 +253,7 @@ def execute(ctx, case):
     sess.bs_log.clear()
     sess.bci_log.clear()
     made.clear()
+    rows_at_production.clear()
     ci = s.bootstrap_ci(metric, alpha=case["alpha"], config=cfg, **kw)
     samples2 = [b for (src, c_, b) in sess.bs_log if src is s]
     C(len(sess.bci_log) == 1, "bootstrap_ci did not go through the CI formula exactly once", "boot-ci-calls", calls=len(sess.bci_log))
@@ -243,6 +261,8 @@ def execute(ctx, case):
         call = sess.bci_log[0]
         with monitors.oracle_scope_ctx():
             reps = np.stack([np.asarray(fn(b)) for b in samples2], axis=0)
+        if kind == "custom" and reuse and len(rows_at_production) >= S_:
+            reps = np.stack(rows_at_production[:S_], axis=0)
         C(np.shape(call["theta"]) == reps.shape and np.array_equal(np.asarray(call["theta"]), reps, equal_nan=True), "replicates handed to the CI formula are not the metric on the samples drawn", "boot-ci-theta")
         C(np.array_equal(np.asarray(call["theta_hat"]), point, equal_nan=True), "point estimate handed to the CI formula is not the metric of the original object", "boot-ci-estimate",
           got=np.asarray(call["theta_hat"]), expected=point)
@@ -258,6 +278,8 @@ def execute(ctx, case):
         # "row j is the metric on the j-th sample produced by the configured sampler": the same seed fed to the sampler directly
         np.random.seed(case["_seed"])
         with monitors.oracle_scope_ctx():
+            if mname == "rng_callable":
+                fn(s)  # the point estimate is evaluated first and consumes its share of the stream
             direct = [np.asarray(fn(s.bootstrap_sample(cfg))) for _ in range(S_)]
         C(res.shape == (S_,) + point.shape and all(np.array_equal(res[j], direct[j], equal_nan=True) for j in range(S_)),
           "bootstrap_metric under a seed differs from the metric on successive bootstrap_sample(config) calls under the same seed", "boot-direct-sampler")
